@@ -82,7 +82,10 @@ def model_scenarios(tier, wd):
     p2, p3 = [100, 110], [100, 110, 120]
     f2 = elect.formation_schedule(two, p2, "direct", wd)
     f3 = elect.formation_schedule(three, p3, "direct", wd)
-    ex = [elect.Scenario("d2_none", two, p2, [], form_sched=f2)]
+    ex = [elect.Scenario("d2_none", two, p2, [], form_sched=f2),
+          # a node started alone: nobody to ask, its initial election makes it primary
+          elect.Scenario("j1_alone", ["n1"], [100], [], formation="join"),
+          elect.Scenario("j1_force", ["n1"], [100], [A("n1"), F("n1")], formation="join")]
     for n in two:
         ex.append(elect.Scenario("d2_force_%s" % n, two, p2, [A(n), F(n)], form_sched=f2))
         ex.append(elect.Scenario("d2_kill_%s" % n, two, p2, [K(n)], form_sched=f2))
